@@ -10,7 +10,8 @@ ITerm2Image:
   (d) for accepted sentences: `format(image, spec)` against the explicit composition
       `_format_render(render(alpha, **style), h_align, width, v_align, height)` with the *reference* interpretation,
       against what `draw()` with the equivalent explicit parameters writes, and the same specifier given to
-      `ImageIterator` and `UrwidImage`.
+      `ImageIterator` and `UrwidImage`; cached ImageIterators (kitty, iterm2) with +style specs: every frame of the
+      first loop and of the second loop after a size change == format(twin at that frame, spec).
   (e) history: every accepted sentence that leaves a padding dimension to the terminal (absent or zero width /
       height) is evaluated again in the same process after the terminal was resized and after it was resized back -
       through `_check_format_spec` for all of (a)-(c), through format() == explicit composition for (d) - and must
@@ -529,6 +530,51 @@ def other_entry_points(col, L, spec):
         pil.close()
 
 
+ITER_SPECS = dict(
+    kitty=["+Wz7m1c0", "+L", "+Wm1", "+W", "+z5", "+Lz-3c9", "<5.^3#+Wz1", "##+Lm1"],
+    iterm2=["+Wm1c0", "+L", "+Wm1", "+W", "+Lc9", "+m1", ">4.2#+Wc0", "##+Lm1"],
+)
+
+
+def iterator_style_case(col, L, style, spec):
+    """A cached ImageIterator with a style part in its format spec: every frame it yields - in the first loop and,
+    after the image size changed (all cached frames stale), in the second loop - equals format(twin, spec) of a
+    twin image seeked to that frame."""
+    from PIL import Image
+
+    case = dict(kind="iterator", style=style, spec=spec)
+    world.setup(IDENT[style], TERM[0], TERM[1], cell=CELL)
+    cls = classes(L)[style]
+    p1, p2 = Image.open(_GIF), Image.open(_GIF)
+    try:
+        img = cls(p1, width=2, height=1)
+        twin = cls(p2, width=2, height=1)
+        it = L.common.ImageIterator(img, 2, spec, True)
+        try:
+            for loop, size in ((1, None), (2, (3, 2))):
+                if size:
+                    img.set_size(*size)
+                    twin.set_size(*size)
+                for k in range(2):
+                    frame = next(it)
+                    twin.seek(k)
+                    want = format(twin, spec)
+                    col.count()
+                    col.inc("iterator_frames")
+                    if frame != want:
+                        col.violation(dict(clause="entry-point-format", via="ImageIterator", style=style,
+                                           cached_loop=loop, resized=bool(size)),
+                                      f"{style}: frame {k} of loop {loop} of a cached ImageIterator(image, 2, {spec!r})"
+                                      + (f" after the image size changed to {size}" if size else "") +
+                                      f" differs from format(image at frame {k}, {spec!r}): {frame[:70]!r}... vs "
+                                      f"{want[:70]!r}...", case)
+        finally:
+            it.close()
+    finally:
+        p1.close()
+        p2.close()
+
+
 # ------------------------------------------------------------------------------------------ spaces
 H_MENU = ["", "<", "|", ">"]
 W_MENU = ["", "0", "1", "10", "007"]
@@ -614,6 +660,18 @@ def _shard(items):
                                   f"{style}: {spec!r}: {type(e).__name__}: {e}", dict(kind="format", style=style, spec=spec))
             world.uninstall()
             world.setup("kitty", TERM[0], TERM[1], cell=CELL)
+        elif kind == "iterator":
+            style, specs = arg
+            for spec in specs:
+                try:
+                    iterator_style_case(col, L, style, spec)
+                except world.HarnessError:
+                    raise
+                except Exception as e:
+                    col.violation(dict(clause="exception", exc=type(e).__name__, via="iterator", style=style),
+                                  f"{style}: {spec!r}: {type(e).__name__}: {e}",
+                                  dict(kind="iterator", style=style, spec=spec))
+            world.setup("kitty", TERM[0], TERM[1], cell=CELL)
         elif kind == "entry":
             for spec in arg:
                 try:
@@ -679,6 +737,8 @@ def run(ctx):
             items.append(("format", (style, c, True)))
     for c in chunks(product, 1500):
         items.append(("entry", c))
+    for style in ("kitty", "iterm2"):
+        items.append(("iterator", (style, ITER_SPECS[style])))
     for col in explore.pmap(_shard, explore.rotate(items), chunks_per_proc=16):
         ctx.merge(col)
     if quick is False and maxlen < 6:
@@ -722,6 +782,9 @@ def replay(ctx, case):
     elif kind == "entry":
         _GIF = imgkit.gif(2, 2, 2)
         other_entry_points(ctx, L, case["spec"])
+    elif kind == "iterator":
+        _GIF = imgkit.gif(2, 2, 2)
+        iterator_style_case(ctx, L, case["style"], case["spec"])
     else:
         raise world.HarnessError(f"unknown replay case {case!r}")
     print("replayed", kind, file=sys.stderr)
